@@ -21,7 +21,7 @@ func checkC03(ctx *Ctx) {
 		"restore into a fresh instance after a clock move) whose whole canonical dump must equal the dump taken at the snapshot instant minus the keys whose deadline has passed at restore time, with LASTSAVE equal to the snapshot time; " +
 		"plus automatic-trigger cases decided on observed ticker fires. distinct_nontrivial = distinct (lane, snapshot mode, generation, clock move, value types present, databases present) tuples")
 	ctx.Assume("virtual clock for deadlines and snapshot names", "the automatic trigger uses a real ticker: the verdict counts observed ticks (hook event), a watchdog firing is inconclusive")
-	if ctx.Fork(8, "", 15*time.Minute) {
+	if ctx.Fork(8, "", ctx.Watchdog()) {
 		return
 	}
 	quietLogs()
